@@ -85,6 +85,35 @@ def make_cyclic_flood(ctx, total, idx=1):
     return s
 
 
+def make_multi_iface(ctx, rounds, idx=0):
+    """several interfaces served by one core: rounds of (Discover, probes, icon request) on each, then a topology
+    Reset on each in varying order; after every round of Resets exactly one record per interface may remain"""
+    rng = G.rng_for(ctx.seed, "C19i", idx)
+    nif = rng.choice([2, 3, 4])
+    cfgs = [G.rand_cfg(rng, mtu=rng.choice([576, 1500])) for _ in range(nif)]
+    m = G.rand_mac(rng)
+    s = H.Scenario("multi%d" % idx, meta=dict(kind="multi", nif=nif, rounds=rounds))
+    for k, c in enumerate(cfgs):
+        s.iface(k, **H.iface_kw(c))
+    s.glob(**G.global_kw(G.rand_global(rng, icon_size=rng.choice([300, 4000]))))
+    s.add("OPT sleep=0 txhex=0 txcap=0 ledger=1")
+    for r in range(rounds):
+        order = list(range(nif))
+        rng.shuffle(order)
+        for k in order:
+            own = cfgs[k]["mac"]
+            s.frame(k, W.discover(m, 1 + r % 5, r & 0xFFFF, [], tos=0))
+            for j in range(rng.randint(0, 6)):
+                s.frame(k, W.probe(own, G.rand_mac(rng), own, G.rand_mac(rng)))
+            if rng.random() < 0.7:
+                s.frame(k, W.qlt(own, m, 1 + (r % 60000), 0x0E, 0))
+        rng.shuffle(order)
+        for k in order:
+            s.frame(k, W.reset(m, tos=0))
+        s.add("MARK round")
+    return s
+
+
 def make_repeat(ctx, count, k):
     """the same non-Probe request K times in a fixed state"""
     scns = []
@@ -164,6 +193,29 @@ def monitor(scn, sobj, rep, sf, ck):
                 rep.nontrivial(("flood", len(series), ref))
                 rep.count("plateau_checked")
         return
+    if kind == "multi":
+        nif = sobj.meta["nif"]
+        base = stash(rep).get("baseline")
+        per_round = []
+        for pos, lab in scn.marks:
+            if lab == "round" and pos > 0 and scn.inputs[pos - 1].led is not None:
+                per_round.append(scn.inputs[pos - 1].led)
+        rep.count("multi_iface_rounds", len(per_round))
+        if per_round:
+            first = per_round[0]
+            worst = max(per_round, key=lambda l: l[1])
+            if first[0] != nif:
+                rep.violation("C19:allocations-survive-reset:several-interfaces",
+                              "scenario %s: %d interfaces, after the first round of Resets %d allocations / %d bytes are live "
+                              "(one constant record per interface expected)" % (scn.sid, nif, first[0], first[1]), replay=sobj.text())
+            elif worst[1] > first[1]:
+                rep.violation("C19:retained-memory-grows-with-history:several-interfaces",
+                              "scenario %s: %d interfaces served by one core; live after each round of topology Resets grows from "
+                              "%d allocations / %d bytes (round 1) to %d / %d over %d rounds"
+                              % (scn.sid, nif, first[0], first[1], worst[0], worst[1], len(per_round)), replay=sobj.text())
+            else:
+                rep.nontrivial(("multi", scn.sid, len(per_round)))
+        return
     if kind == "repeat":
         npre, k = sobj.meta["npre"], sobj.meta["k"]
         reps = leds[npre:npre + k]
@@ -242,6 +294,7 @@ def run(ctx):
     scns += make_mixed(ctx, ctx.n(40, 192), ctx.n(20000, 100000))
     scns.append(make_flood(ctx, ctx.n(40000, 100000)))
     scns.append(make_cyclic_flood(ctx, ctx.n(40000, 100000)))
+    scns += [make_multi_iface(ctx, ctx.n(200, 2000), i) for i in range(ctx.n(6, 32))]
     # every shard's partial report carries its own stash; merge them by hand afterwards
     merged = {}
     orig_merge = rep.merge
@@ -270,4 +323,5 @@ def run(ctx):
     rep.need("after_reset_checked", c.get("after_reset_checked", 0), ctx.n(40, 192))
     rep.need("repeat_checked", c.get("repeat_checked", 0), ctx.n(39, 390))
     rep.need("plateau_checked or violation", c.get("plateau_checked", 0) + sum(1 for k in rep.viol if k.startswith("C19:retained")), 2)
+    rep.need("multi_iface_rounds", c.get("multi_iface_rounds", 0), ctx.n(1000, 50000))
     rep.need("mixed_frames", c.get("mixed_frames", 0), ctx.n(700000, 17 * 10 ** 6))
